@@ -28,6 +28,9 @@ KINDS = {
     "e_strs": ("string[]", [["q"], [], ["r", "s"]]),
     "e_bools": ("boolean[]", [[True], [], [False, False]]),
     "t_ints": ("int[]", [[4], [5, 6]]),        # tuple default
+    # the type hint decides even when the default alone would say otherwise
+    "h_float": ("double", [0.0, 0.25, 3.0, -7.5]),         # kp: float = tunable(0)
+    "h_floats": ("double[]", [[1.0, 2.0], [0.5], [3.0, 4.25]]),   # gains: Sequence[float] = tunable([1, 2])
 }
 EMPTY_FORMS = ["generic", "classvar", "inst"]
 ELEM = {"e_ints": "int", "e_floats": "float", "e_strs": "str", "e_bools": "bool"}
@@ -44,6 +47,10 @@ def gen_config(rng):
             vals = KINDS[kind][1]
             if kind.startswith("e_"):
                 default = []
+            elif kind == "h_float":
+                default = rng.choice([0, 2, -3])          # an integer literal under a float hint
+            elif kind == "h_floats":
+                default = rng.choice([[1, 2], [0], [5, 6, 7]])
             else:
                 default = rng.choice(vals)
             tun.append({"attr": f"t{i}_{j}", "kind": kind, "default": default, "form": rng.choice(EMPTY_FORMS),
@@ -162,7 +169,15 @@ def build_source(cfg):
             if not t["writeDefault"]:
                 kw += ", writeDefault=False"
             d = _src_default(t)
-            if t["kind"].startswith("e_"):
+            if t["kind"] in ("h_float", "h_floats"):
+                ann = "float" if t["kind"] == "h_float" else "Sequence[float]"
+                if t["form"] == "generic":
+                    L.append(f"    {t['attr']} = tunable[{ann}]({d}{kw})")
+                elif t["form"] == "classvar":
+                    L.append(f"    {t['attr']}: ClassVar[tunable[{ann}]] = tunable({d}{kw})")
+                else:
+                    L.append(f"    {t['attr']}: {ann} = tunable({d}{kw})")
+            elif t["kind"].startswith("e_"):
                 el = ELEM[t["kind"]]
                 if t["form"] == "generic":
                     L.append(f"    {t['attr']} = tunable[Sequence[{el}]]({d}{kw})")
@@ -195,6 +210,10 @@ def execute(plan, trace=False):
         probes[k] = probes.get(k, 0) + n
 
     def dec(kind, v):
+        if kind == "h_float":
+            return float(v)
+        if kind == "h_floats":
+            return [float(x) for x in v]
         if kind == "bytes":
             return bytes.fromhex(v["b"])
         if kind == "struct":
@@ -221,6 +240,7 @@ def execute(plan, trace=False):
     def typed(kind, topic):
         return {"bool": ntcore.BooleanTopic, "int": ntcore.IntegerTopic, "float": ntcore.DoubleTopic, "str": ntcore.StringTopic,
                 "bools": ntcore.BooleanArrayTopic, "ints": ntcore.IntegerArrayTopic, "floats": ntcore.DoubleArrayTopic,
+                "h_float": ntcore.DoubleTopic, "h_floats": ntcore.DoubleArrayTopic,
                 "strs": ntcore.StringArrayTopic, "e_ints": ntcore.IntegerArrayTopic, "e_floats": ntcore.DoubleArrayTopic,
                 "e_strs": ntcore.StringArrayTopic, "e_bools": ntcore.BooleanArrayTopic, "t_ints": ntcore.IntegerArrayTopic,
                 "bytes": ntcore.RawTopic,
@@ -261,7 +281,7 @@ def execute(plan, trace=False):
                 elif kind == "structs" or isinstance(KINDS[kind][1][0], list):
                     subs[k] = tt.subscribe([])
                 else:
-                    subs[k] = tt.subscribe({"bool": False, "int": -999, "float": -999.0, "str": "<none>"}[kind])
+                    subs[k] = tt.subscribe({"bool": False, "int": -999, "float": -999.0, "str": "<none>", "h_float": -999.0}[kind])
             v = subs[k].get()
             return list(v) if isinstance(v, (list, tuple)) else v
 
